@@ -171,7 +171,7 @@ def build():
     v.rewrite_re('R6', r'coeffs\.extend\(salts\[mat_idx\]\.iter\(\)\.copied\(\)\);', 'coeffs.extend_from_slice(salts[mat_idx].as_slice());', min_count=1)
     v.rewrite_re('R6', r'circuit\.add_mmcs_verify\(\s*permutation_config,\s*&op_vals_digests,\s*path_bits,\s*&selected_root,\s*\)', 'circuit.add_mmcs_verify(permutation_config, op_vals_digests.as_slice(), path_bits, selected_root.as_slice())', min_count=1)
     v.rewrite_re('R6', r'(add_hash_base_coeffs_overwrite\(\s*circuit,\s*&permutation_config,\s*)&all_base_coeffs', r'\1all_base_coeffs.as_slice()', min_count=1)
-    u.text('verus! {\n/// p3-merkle-tree geometry checks of a batch opening: equal heights inside one power-of-two bucket, index below the tallest height\npub uninterp spec fn native_geometry_ok<F: Field>(dims: Seq<Dimensions>, index_bits: Seq<F>) -> bool;\n}')
+    u.text('verus! {\n/// p3-merkle-tree geometry checks of a batch opening: equal heights inside one power-of-two bucket, index below the tallest height\npub uninterp spec fn native_geometry_ok<F: Field>(dims: Seq<Dimensions>, index_bits: Seq<F>) -> bool;\n/// every per-matrix salt of a hiding MMCS opening has SALT_ELEMS elements\npub uninterp spec fn salt_lengths_are_the_configured_ones(salts: Option<Seq<Seq<ExprId>>>) -> bool;\n}')
     u.text('''verus! {
 #[verifier::external_body]
 pub fn empty_digests(n: usize) -> (r: Vec<Vec<Target>>) ensures r@.len() == n, forall|i: int| 0 <= i < n ==> (#[trigger] r@[i])@.len() == 0 { unimplemented!() }
@@ -189,6 +189,8 @@ pub fn empty_digests(n: usize) -> (r: Vec<Vec<Target>>) ensures r@.len() == n, f
     # native MerkleTreeMmcs::verify_batch (geometry.rs): heights that round up to the same power of two must be equal (IncompatibleHeights) and index < max_height (IndexOutOfBounds);
     # the circuit buckets matrices by the padded height only and takes the index as index_bits (open finding)
     v.ensures('H_the_claimed_heights_lie_on_the_native_ladder_and_the_index_is_below_the_tallest_height', 'ret is Ok ==> native_geometry_ok(dimensions@, old(circuit).vals_of(index_bits@))')
+    # native MerkleTreeHidingMmcs::verify_batch rejects an opening whose salt is not SALT_ELEMS long (or is missing); the circuit appends whatever salt limbs the proof carries (open finding)
+    v.ensures('H_every_salt_has_the_configured_length', 'ret is Ok ==> salt_lengths_are_the_configured_ones(salts_view(salts))')
     v.ensures('rejects_mismatched_batch_sizes', 'ret is Ok ==> dimensions@.len() == opened_base_coeffs@.len() && (salts matches Some(sl) ==> sl@.len() == opened_base_coeffs@.len())')
     v.ensures('asserts_the_native_batch_opening_relation',
               '''ret is Ok ==> ({
